@@ -1,4 +1,5 @@
 use vstd::prelude::*;
+use core::cmp::{self, Ordering};
 verus! {
 
 pub type CodePoint = u32;
@@ -32,38 +33,53 @@ pub open spec fn gap_count(s: Seq<Interval>) -> int {
     }
 }
 
-proof fn lemma_has_push(s: Seq<Interval>, iv: Interval, cp: int)
-    ensures ivs_has(s.push(iv), cp) <==> (ivs_has(s, cp) || iv.first <= cp <= iv.last)
+// In a well-formed list the k-th interval starts at or after 2k, hence there are at most 0x88000 intervals.
+proof fn lemma_wf_first_lower_bound(s: Seq<Interval>, k: int)
+    requires ivs_wf(s), 0 <= k < s.len(),
+    ensures s[k].first >= 2 * k,
+    decreases k,
 {
-    let t = s.push(iv);
-    if ivs_has(s, cp) {
-        let i = choose|i: int| 0 <= i < s.len() && (#[trigger] s[i]).first <= cp <= s[i].last;
-        assert(t[i] == s[i]);
+    if k > 0 {
+        lemma_wf_first_lower_bound(s, k - 1);
+        assert(iv_wf(s[k - 1]));
+        assert(s[k - 1].last + 1 < s[k].first);
     }
-    if iv.first <= cp <= iv.last {
-        assert(t[s.len() as int] == iv);
+}
+
+proof fn lemma_wf_len(s: Seq<Interval>)
+    requires ivs_wf(s),
+    ensures s.len() <= 0x88000,
+{
+    if s.len() > 0 {
+        let k = s.len() - 1;
+        lemma_wf_first_lower_bound(s, k);
+        assert(iv_wf(s[k]));
     }
-    if ivs_has(t, cp) {
-        let i = choose|i: int| 0 <= i < t.len() && (#[trigger] t[i]).first <= cp <= t[i].last;
-        if i < s.len() { assert(t[i] == s[i]); }
-    }
+}
+
+impl Interval {
+//@@EXTRACTED:compare@@
+
+//@@EXTRACTED:is_before@@
+
+//@@EXTRACTED:is_strictly_before@@
+
+//@@EXTRACTED:mergecmp@@
+
+//@@EXTRACTED:contains@@
+
+//@@EXTRACTED:overlaps@@
+
+//@@EXTRACTED:count_codepoints@@
 }
 
 impl CodePointSet {
     pub open spec fn wf(&self) -> bool { ivs_wf(self.ivs@) }
     pub open spec fn has(&self, cp: int) -> bool { ivs_has(self.ivs@, cp) }
 
-    // Assumed contract (trusted, listed in the evidence): the constructor stores the vector; its debug assertion
-    // (assert_is_well_formed) is turned into the precondition, so it is a proof obligation at every call site.
-    #[verifier::external_body]
-    pub fn from_sorted_disjoint_intervals(ivs: Vec<Interval>) -> (r: CodePointSet)
-        requires ivs_wf(ivs@),
-        ensures r.ivs@ == ivs@,
-    {
-        CodePointSet { ivs }
-    }
+//@@EXTRACTED:is_empty@@
 
-//@@EXTRACTED:inverted@@
+//@@EXTRACTED:inverted_interval_count@@
 }
 
 } // verus!
